@@ -87,7 +87,8 @@ static int mc_thorough = 0;
 static double mc_t0, mc_deadline_s = 240;
 static long mc_seed = 0;
 static int mc_replaying = 0;
-static char mc_bounds[4000];  // harness may describe the bounds of this tier here
+static char mc_bounds[4000];
+static const char *mc_level = "model_checking";  // harness may describe the bounds of this tier here
 
 static double mc_now(void) {
     struct timespec ts;
@@ -588,8 +589,8 @@ static int mc_finish(void) {
         perror(tmp);
         return 2;
     }
-    fprintf(f, "{\n \"property_id\": \"%s\",\n \"tier\": \"%s\",\n \"seed\": %ld,\n \"level\": \"model_checking\",\n",
-            MC_PROPERTY, mc_tier, mc_seed);
+    fprintf(f, "{\n \"property_id\": \"%s\",\n \"tier\": \"%s\",\n \"seed\": %ld,\n \"level\": \"%s\",\n",
+            MC_PROPERTY, mc_tier, mc_seed, mc_level);
     fprintf(f, " \"coverage\": {\n");
     fprintf(f, "  \"states\": %" PRIu64 ",\n  \"transitions\": %" PRIu64
                ",\n  \"traces_validated_against_impl\": %" PRIu64 ",\n",
